@@ -44,24 +44,24 @@ section
 variable (p : Program) (f0 : Frame) (rest : List Frame) (V : Array Value) (P : List KConst)
 
 /-- compile correctness for every form of the fragment at compile fuel `fuel` -/
-def CorrectAt (G : String → Prop) (fuel : Nat) : Prop :=
+def CorrectAt (G : String → Prop) (T : Expr → Prop) (w : Bool) (fuel : Nat) : Prop :=
   ∀ (e : Expr) (opts : Fopts) (c c' : CState) (slot : JSlot) (sc : Scope) (rs : List Scope) (pool : List KConst) (ps : List (List KConst))
     (n : Nat) (cur : Pos) (env env' : Env) (s s' : SS) (v : Value),
-    opts.tail = false → opts.hint = none → c.scopes = sc :: rs → c.pools = pool :: ps → c.lim ≤ 240 → sc.top = false → TS G e →
+    opts.tail = false → opts.hint = none → c.scopes = sc :: rs → c.pools = pool :: ps → c.lim ≤ 240 → sc.top = false → T e →
     cValue fuel opts e c = some (slot, c') → eval n cur env e s = .ok (v, env') s' → EnvS G c.scopes env s.boxes.size sc.ra →
-    Correct2 p f0 rest V P G c c' slot sc rs pool ps env env' s s' v
+    Correct2 p f0 rest V P G (opts.drop && w) c c' slot sc rs pool ps env env' s s' v
 
 theorem call1_core (hP : P.length < 65536)
     (hK : ∀ i, i < P.length → (p.defs.getD f0.defIdx default).consts.getD i .nil = litOf V (P.getD i .nil))
-    (FF : FloatFacts) (G : String → Prop) (fuel : Nat) (IH : CorrectAt p f0 rest V P G fuel)
-    (f : String) (a : Expr) (hna : f ≠ "apply") (hG : G f) (hTa : TS G a)
+    (FF : FloatFacts) (G : String → Prop) (T : Expr → Prop) (w : Bool) (fuel : Nat) (IH : CorrectAt p f0 rest V P G T w fuel)
+    (f : String) (a : Expr) (hna : f ≠ "apply") (hG : G f) (hTa : T a)
     (c cq : CState) (slot0 : JSlot) (sc : Scope) (rs : List Scope) (pool : List KConst) (ps : List (List KConst))
     (n2 : Nat) (pos : Pos) (env env_a : Env) (s s_a s' : SS) (va v : Value)
     (hs : c.scopes = sc :: rs) (hp : c.pools = pool :: ps) (hl : c.lim ≤ 240) (htop : sc.top = false)
     (hcc : cCall (cValue fuel) {} (.sym f) [a] c = some (slot0, cq))
     (hsa : eval (n2 + 1) pos env a s = .ok (va, env_a) s_a) (happ : applyFn (n2 + 2) pos (.cfun f) [va] s_a = .ok v s')
     (hE : EnvS G c.scopes env s.boxes.size sc.ra) :
-    Correct2 p f0 rest V P G c cq slot0 sc rs pool ps env env_a s s' v := by
+    Correct2 p f0 rest V P G false c cq slot0 sc rs pool ps env env_a s s' v := by
   obtain ⟨head, c1, sa, c2, c3, cT, c4, c5, h1, h2, h3, hT, hEm, hf1, hf2⟩ := cCall1_inv (cValue fuel) f a c cq slot0 hcc
   cases fuel with
   | zero => simp [cValue] at h1
@@ -84,7 +84,7 @@ theorem call1_core (hP : P.length < 65536)
   -- the argument
   have hs1 : ({ c with vals := vals1 } : CState).scopes = sc :: rs := hs
   have hp1 : ({ c with vals := vals1 } : CState).pools = pool :: ps := hp
-  obtain ⟨ra2, ns2, more2, seg2, segm2, hc2, pv2, r1a, r3a, sok2, bx2, es2, vm2⟩ :=
+  obtain ⟨ra2, ns2, more2, seg2, segm2, hc2, pv2, r1a, r3a, sok2, bx2, es2, nf2, vm2⟩ :=
     IH a {} _ c2 sa sc rs pool ps (n2 + 1) pos env env_a s s_a va rfl rfl hs1 hp1 hl htop hTa h2 hsa hE
   have hs2 : c2.scopes = { sc with ra := ra2, syms := sc.syms ++ ns2 } :: rs := by rw [hc2]
   have hp2 : c2.pools = (pool ++ more2) :: ps := by rw [hc2]
@@ -143,7 +143,7 @@ theorem call1_core (hP : P.length < 65536)
   have hbx : s'.boxes = s_a.boxes := applyFn_cfun_boxes (n2 + 1) pos f hna [va] s_a s' v happ
   have hnames : ∀ x slot u l r, lk c2.scopes x = some (slot, u, l) → slot.k = .loc r → ra2.alloc r = true → ra5.alloc r = true :=
     fun x slot u l r hx hk hr => r15 r (h24 r hr) (Or.inr (Or.inr ⟨x, slot, u, l, hx, hk⟩))
-  refine ⟨ra5, ns2, more2 ++ more3 ++ more4, seg2 ++ seg3 ++ seg4, segm2 ++ segm3 ++ segm4, ?_, ?_, ?_, ?_, ?_, ?_, ?_, ?_⟩
+  refine ⟨ra5, ns2, more2 ++ more3 ++ more4, seg2 ++ seg3 ++ seg4, segm2 ++ segm3 ++ segm4, ?_, ?_, ?_, ?_, ?_, ?_, ?_, ?_, ?_⟩
   · rw [hc5, hc4, hc3, hc2]
     simp [List.append_assoc]
   · rw [hc5, hc4, hc3]
@@ -161,6 +161,8 @@ theorem call1_core (hP : P.length < 65536)
   · rw [hbx]; exact bx2
   · rw [hs5, hbx]
     exact es2.of_lk (hlk2 ra5) (Nat.le_refl _) hnames
+  · refine ⟨fun d0 hd0 hno => (nf2.1 d0 hd0 hno).of_lk (fun x => by rw [hs5, hlk2]), fun r hnm => ?_⟩
+    rw [hslot] at hnm; exact absurd hnm (by simp)
   · intro k hkw hka hD hcode hpre hV hsz
     rw [hmax5] at hsz
     have hvals : c5.vals = c2.vals := by rw [hc5, hc4, hc3]
@@ -186,7 +188,7 @@ theorem call1_core (hP : P.length < 65536)
     have sz3' : regs3.size = regs2.size := sz3
     have hlit : litOf V kf = .cfun f := by
       rw [litOf_pref (PrefA.trans pv2 hV) kf k3]; exact k4
-    have hargs : ((#[] : Array Value).push (slotVal V regs2 sa)).toList = [va] := by simp [sv2]
+    have hargs : ((#[] : Array Value).push (slotVal V regs2 sa)).toList = [va] := by simp [sv2 rfl]
     obtain ⟨regs4, rch4, sz4, hv4, pr4⟩ := vm4
       { regs := regs3, pc := k.pc + seg2.length + seg3.length, args := (#[] : Array Value).push (slotVal V regs2 sa), w := s_a.st.world }
       s_a s' (n2 + 1) pos v hcodeC hpreC (by show ra4.max < regs3.size; omega) rfl hlit (by rw [hargs]; exact happ)
@@ -200,7 +202,7 @@ theorem call1_core (hP : P.length < 65536)
       have h2r : ra2.alloc r = true := r1a r hr
       have h3r : ra3.alloc r = true := by rw [e3' r]; exact h2r
       rw [pr4 r h3r, pr3 r h2r, pr2 r hr]
-    · simp only [slotVal, hslot]; exact hv4
+    · intro _; simp only [slotVal, hslot]; exact hv4
     · intro x slot u l r a' hx hk he
       rw [hs5, hlk2] at hx
       obtain ⟨_, _, _, r', _, hk', _, _, hal, _⟩ := es2.found hx
